@@ -109,6 +109,11 @@ func flushStats() {
 // includeKnown switches the generator classes that are excluded because of recorded findings back on.
 func includeKnown() bool { return os.Getenv("C16_INCLUDE_KNOWN") != "" }
 
+// include reports whether the generator produces the input class of the
+// recorded finding sig: always unless the finding is listed as known (a fixed
+// finding excludes nothing), or when C16_INCLUDE_KNOWN is set.
+func include(sig string) bool { return includeKnown() || !ev.IsKnown(sig) }
+
 // ---------------------------------------------------------------- fix-emitting checks
 
 var reportFixesRe = regexp.MustCompile(`report\.Fixes\(`)
@@ -234,6 +239,9 @@ func knownSig(check, kind, msg string) string {
 	case check == "QF1001" && (kind == "typecheck" || kind == "behaviour") && strings.Contains(msg, "& simplify\""):
 		return "simplify-parentheses-changes-structure"
 	case check == "QF1005" && kind == "behaviour":
+		if onlyRounding(msg) {
+			return "qf1005-regrouped-multiplication"
+		}
 		if powIsOperand(msg) {
 			return "replacement-not-parenthesised-for-context"
 		}
@@ -260,6 +268,37 @@ func knownSig(check, kind, msg string) string {
 		return "s1030-bytes-differs-from-copy"
 	}
 	return strings.ToLower(check) + "-fix-" + kind
+}
+
+var reDiffRes = regexp.MustCompile(`(?m)^  (original|fixed):\s+res=\[float64 ([^\]]+)\] (.*)$`)
+
+// onlyRounding reports whether every difference quoted in a behaviour message
+// is a float64 result that differs by rounding only (relative error below
+// 1e-9), with identical panics, traces and effects.
+func onlyRounding(msg string) bool {
+	ms := reDiffRes.FindAllStringSubmatch(msg, -1)
+	if len(ms) == 0 || len(ms)%2 != 0 || strings.Count(msg, "\n  original:") != len(ms)/2 {
+		return false
+	}
+	for i := 0; i < len(ms); i += 2 {
+		o, f := ms[i], ms[i+1]
+		if o[1] != "original" || f[1] != "fixed" || o[3] != f[3] {
+			return false
+		}
+		x, err1 := strconv.ParseFloat(o[2], 64)
+		y, err2 := strconv.ParseFloat(f[2], 64)
+		if err1 != nil || err2 != nil {
+			return false
+		}
+		d, m := x-y, max(x, -x, y, -y)
+		if d < 0 {
+			d = -d
+		}
+		if !(d <= 1e-9*m) {
+			return false
+		}
+	}
+	return true
 }
 
 // powIsOperand reports whether the original source quoted in a QF1005 message
@@ -758,7 +797,7 @@ func TestMutated(t *testing.T) {
 			pick := func(k int) int { return uniform(rt, k, "pick") }
 			for i := 0; i < n; i++ {
 				kind := mutKinds[uniform(rt, len(mutKinds), "kind")]
-				if kind == srcmut.Paren && strings.Contains(d, "/sa1006/") && !includeKnown() {
+				if kind == srcmut.Paren && strings.Contains(d, "/sa1006/") && !include("sa1006-parenthesised-callee") {
 					// recorded finding sa1006-parenthesised-callee: (fmt.Printf)(s) is rewritten to (fmt.Printf(s)
 					ev.Count("excluded_by_known_finding_sa1006_parenthesised_callee", 1)
 					kind = srcmut.CommentExpr
